@@ -37,7 +37,8 @@ type expEv struct {
 
 type scriptSub struct {
 	*subscriber
-	openAt int // opened after this many writer ops
+	slow   bool // takes six seconds (fake time) over every event
+	openAt int  // opened after this many writer ops
 	expect []expEv
 }
 
@@ -96,7 +97,7 @@ func scriptRun(w *World, coll bool) {
 			// predicate reads a field (V) that the read mask may leave out - it must be evaluated on the stored item
 			sc.Include = &inclTable{arith: true}
 		}
-		subs = append(subs, &scriptSub{subscriber: &subscriber{name: fmt.Sprintf("s%d", i), cfg: sc, ctx: ctx, cancel: cancel}, openAt: t.Choose(nops + 1)})
+		subs = append(subs, &scriptSub{subscriber: &subscriber{name: fmt.Sprintf("s%d", i), cfg: sc, ctx: ctx, cancel: cancel}, openAt: t.Choose(nops + 1), slow: coll && i == 0 && t.Flag(1, 5)})
 	}
 	masks := [][]string{{fV}, {fV, fN}, {fS}, {}, {"nope"}, {fN}}
 	var hist []hop
@@ -194,6 +195,9 @@ func scriptRun(w *World, coll bool) {
 			s.pullReturn = w.Step()
 			w.Go(s.name, true, func(t *Task) {
 				for {
+					if s.slow {
+						t.Sleep(6 * time.Second) // longer than any send bound there is: a collection's writers simply wait
+					}
 					t.Yield("recv")
 					if !s.recv(w) {
 						return
